@@ -24,6 +24,7 @@ message_reader.go (D14 belongs to C02; the driver counts panics on cut fetch res
 import KafkaVerif.Props.C11
 import KafkaVerif.Lemmas.TransportConnC17
 import KafkaVerif.Props.C02
+import KafkaVerif.Props.C01
 
 namespace KV.C17
 open KV KV.Reader KV.ConnOps
@@ -212,5 +213,180 @@ theorem fetch_cut_no_panic (items : List Item) (nb : Int) (hnb : 0 ≤ nb) (hwf 
   have hk : ¬ ((k : Int) < 0) := by omega
   simp only [responseTokens, containedRecords, hk, if_false, Int.toNat_natCast] at h
   exact ⟨h.2.1, h.1⟩
+
+section ReaderResume
+open KV.C02
+
+/-! ### resume_after_cut for the Reader, composed with the C02 machines
+
+The per-round facts come from C02 (`fetch_round` for complete responses, `single_fetch` for a response lost after k
+bytes — the same theorem `fetch_cut_no_panic` instantiates), the restart rule from ReaderLoop (`onAnswer … .cutAfter`,
+`deliver`: Conn closed, restart at last delivered + 1; `lost_round_is_reader_loop` ties `roundStep` to it).  The theorem
+is the invariant "delivered = log ∩ [start, position)" carried through ANY interleaving of complete and lost rounds. -/
+
+/-- what happens to the fetch the Reader issues at its position: a complete response within a byte budget (the Conn
+is kept, the next fetch is at the Conn's offset), or a response lost after `k` bytes of its message set (the records
+received completely are delivered, the Conn is closed, the Reader dials again and restarts at last delivered + 1 —
+ReaderLoop `onAnswer … (.cutAfter toks)`, `deliver`) -/
+inductive Round where
+  | complete (budget : Nat)
+  | lost (k : Nat)
+
+/-- (records delivered, next fetch position) of one round at position q -/
+def roundStep (items : List Item) (hwm q : Int) : Round → List Rec × Int
+  | .complete b => ((fetchOnce .fixed items hwm q b).1, (fetchOnce .fixed items hwm q b).2.1)
+  | .lost k =>
+    let d := (readAll .fixed false q hwm (truncate (allTokens (dropBefore q items)) k)).1
+    (d, match d.getLast? with | some x => x.1 + 1 | none => q)
+
+def resumeSeq (items : List Item) (hwm : Int) : Int → List Round → List Rec × Int
+  | q, [] => ([], q)
+  | q, r :: rs =>
+    ((roundStep items hwm q r).1 ++ (resumeSeq items hwm (roundStep items hwm q r).2 rs).1,
+     (resumeSeq items hwm (roundStep items hwm q r).2 rs).2)
+
+theorem le_getLast_of_pairwise {d : List Rec} (hp : d.Pairwise (fun a b => a.1 < b.1)) {x : Rec}
+    (hl : d.getLast? = some x) : ∀ r ∈ d, r.1 ≤ x.1 := by
+  induction d with
+  | nil => simp at hl
+  | cons a t ih =>
+    intro r hr
+    cases t with
+    | nil =>
+      simp only [List.getLast?_singleton, Option.some.injEq] at hl
+      simp only [List.mem_singleton] at hr
+      subst hl; subst hr; exact Int.le_refl _
+    | cons b t' =>
+      have hl' : (b :: t').getLast? = some x := by simpa [List.getLast?_cons_cons] using hl
+      have hp' := (List.pairwise_cons.mp hp)
+      rcases List.mem_cons.mp hr with rfl | hm
+      · have hx : x ∈ b :: t' := List.mem_of_getLast? hl'
+        have := hp'.1 x hx
+        omega
+      · exact ih hp'.2 hl' r hm
+
+/-- one round keeps the invariant "delivered = the log between the old and the new position", whether the response
+arrived completely or the connection was lost after any number of bytes -/
+theorem round_inv (items : List Item) (nb : Int) (hnb : 0 ≤ nb) (hwf : LWF nb items) (hwm q : Int) (hq : 0 ≤ q) (rd : Round) :
+    q ≤ (roundStep items hwm q rd).2 ∧
+    (∀ r ∈ (roundStep items hwm q rd).1, r ∈ allRecords items ∧ q ≤ r.1 ∧ r.1 < (roundStep items hwm q rd).2) ∧
+    (∀ r ∈ allRecords items, q ≤ r.1 → r.1 < (roundStep items hwm q rd).2 → r ∈ (roundStep items hwm q rd).1) ∧
+    (roundStep items hwm q rd).1.Pairwise (fun a b => a.1 < b.1) := by
+  cases rd with
+  | complete b =>
+    obtain ⟨f1, f2, f3, f4, _, _⟩ := fetch_round items nb hnb hwf hwm q hq b
+    exact ⟨f1, f2, f3, f4⟩
+  | lost k =>
+    by_cases hne : hwm = q
+    · simp [roundStep, readAll, hne]
+    · obtain ⟨d1, d2, d3, d4⟩ := dropBefore_spec q hwf
+      have hsafe : Safe q (dropBefore q items) := by
+        cases hsub : dropBefore q items with
+        | nil => trivial
+        | cons it rest => rw [hsub] at d1; exact safe_of_contract d1 (d4 it rest hsub)
+      have h := single_fetch (dropBefore q items) nb hnb d1 q hwm hq hsafe hne (k : Int) false
+      have hk : ¬ ((k : Int) < 0) := by omega
+      simp only [responseTokens, containedRecords, hk, if_false, Int.toNat_natCast] at h
+      obtain ⟨g1, _, g3, g4, g5⟩ := h
+      simp only [roundStep]
+      generalize hd : (readAll .fixed false q hwm (truncate (allTokens (dropBefore q items)) k)) = res at g1 g3 g4 g5 ⊢
+      have hmem : ∀ r ∈ res.1, r ∈ allRecords items ∧ q ≤ r.1 := by
+        intro r hr
+        rw [g1] at hr
+        have := List.mem_filter.mp hr
+        exact ⟨d3 r (contained_subset _ _ r this.1), by simpa using this.2⟩
+      cases hl : res.1.getLast? with
+      | none =>
+        have hnil : res.1 = [] := by simpa using hl
+        simp [hnil]
+      | some x =>
+        have hxm : x ∈ res.1 := List.mem_of_getLast? hl
+        have hle := le_getLast_of_pairwise g5 hl
+        simp only
+        refine ⟨by have := (hmem x hxm).2; omega, ?_, ?_, g5⟩
+        · intro r hr
+          have hm := hmem r hr
+          have hl2 := hle r hr
+          exact ⟨hm.1, hm.2, by omega⟩
+        · intro r hr h1 h2
+          rcases d2 r hr with hlt | hsub
+          · omega
+          · exact g3 r hsub h1 (by have := g4 x hxm; omega)
+
+/-- **resume_after_cut for the Reader**: for every well-formed log, every start position and every sequence of rounds —
+complete responses under any byte budgets and responses lost after any number of bytes, in any order — the
+concatenation of what is delivered is exactly the log between the start position and the final position: every
+delivered message is a stored record of that range, strictly increasing offsets (no duplicate, no reordering), and no
+stored record of that range is missing (no loss). -/
+theorem reader_resume_after_cut (items : List Item) (nb : Int) (hnb : 0 ≤ nb) (hwf : LWF nb items) (hwm : Int) :
+    ∀ (rounds : List Round) (start : Int), 0 ≤ start →
+      start ≤ (resumeSeq items hwm start rounds).2 ∧
+      (∀ r ∈ (resumeSeq items hwm start rounds).1, r ∈ allRecords items ∧ start ≤ r.1 ∧ r.1 < (resumeSeq items hwm start rounds).2) ∧
+      (∀ r ∈ allRecords items, start ≤ r.1 → r.1 < (resumeSeq items hwm start rounds).2 → r ∈ (resumeSeq items hwm start rounds).1) ∧
+      (resumeSeq items hwm start rounds).1.Pairwise (fun a b => a.1 < b.1) := by
+  intro rounds
+  induction rounds with
+  | nil => intro q _; simp [resumeSeq]
+  | cons rd rs ih =>
+    intro q hq
+    obtain ⟨f1, f2, f3, f4⟩ := round_inv items nb hnb hwf hwm q hq rd
+    obtain ⟨i1, i2, i3, i4⟩ := ih (roundStep items hwm q rd).2 (by omega)
+    simp only [resumeSeq]
+    refine ⟨by omega, ?_, ?_, ?_⟩
+    · intro r hr
+      simp only [List.mem_append] at hr
+      rcases hr with hr | hr
+      · have := f2 r hr; exact ⟨this.1, this.2.1, by omega⟩
+      · have := i2 r hr; exact ⟨this.1, by omega, this.2.2⟩
+    · intro r hr h1 h2
+      simp only [List.mem_append]
+      by_cases hlt : r.1 < (roundStep items hwm q rd).2
+      · exact Or.inl (f3 r hr h1 hlt)
+      · exact Or.inr (i3 r hr (by omega) h2)
+    · rw [List.pairwise_append]
+      refine ⟨f4, i4, ?_⟩
+      intro a ha c hc
+      have := (f2 a ha).2.2
+      have := (i2 c hc).2.1
+      omega
+
+
+/-- the `lost` round is ReaderLoop's transition for a connection cut (Model/ReaderLoop.lean `onAnswer … (.cutAfter toks)`):
+same records delivered, Conn closed, and `deliver` leaves the restart position where `roundStep` says -/
+theorem lost_round_is_reader_loop (s : RL) (items : List Item) (hwm first last : Int) (k : Nat)
+    (hq : s.connOff = s.offset) (hne : hwm ≠ s.offset) :
+    (match onAnswer .fixed s hwm first last (.cutAfter (truncate (allTokens (dropBefore s.offset items)) k)) with
+     | .go s' => s'.out = s.out ++ (roundStep items hwm s.offset (.lost k)).1 ∧ s'.connOpen = false ∧
+                 s'.offset = (roundStep items hwm s.offset (.lost k)).2
+     | .stop _ _ => False) := by
+  simp only [onAnswer, roundStep, readAll, hne, if_false, hq, deliver]
+  refine ⟨trivial, trivial, ?_⟩
+  cases (run Variant.fixed false s.offset { off := s.offset } (truncate (allTokens (dropBefore s.offset items)) k)).1.out.getLast? <;> rfl
+
+/-- non-vacuity on the C02 defect layout (compaction holes, empty batch, compressed batch): lost after 70 bytes,
+lost at once, then complete — everything from 100 on is delivered exactly once -/
+example : (resumeSeq d15Layout 112 100 [.lost 70, .lost 0, .complete 1000, .lost 61, .complete 1000]).1
+    = (allRecords d15Layout).filter (fun r => 100 ≤ r.1) := by decide
+
+end ReaderResume
+
+/-! ### resume_after_cut for the Writer, composed with the C01 machine
+
+The Writer LTS of C01 (Model/Writer.lean) lets the broker's decision on an attempt be `acked`, `lost applied?`
+(the acknowledgement never reaches the client) or `rejected code`, and relates it to the client-side result of the
+attempt by `consistent`: that relation is where "a lost response is an error for the client" enters C01 as a modelling
+assumption.  C17 discharges it: a produce response cut at any byte is never decoded into a result
+(`readResponse_cut_is_error`; Conn path `cut_is_error`), and the Transport never hands the failed connection to the next
+attempt (`resume_after_cut`).  C01 then says what follows: the attempt ends with an error, is retried only if
+retriable and within the attempt budget (`C01.retry_only_after_retriable`, `attempts_bounded`), and a second copy of a
+batch exists only after an acknowledgement was lost (`C01.dups_only_after_lost_ack`) — C01's retry rule. -/
+theorem writer_resume_after_cut {α : Type} (d : Decoder α) (s : Reader.RS) (hcut : s.inp.length < s.sz)
+    (cfg : Writer.Cfg) (st st' : Writer.State) (pw b k : Nat)
+    (hdone : Writer.step cfg st (.attemptDone pw b k 0) = some st') :
+    -- the cut response decodes to an error …
+    (d.run s).1 = none ∧
+    -- … while the Writer machine ends an attempt WITHOUT error only when the broker applied and acknowledged it:
+    (∃ P, st.pws pw = some P ∧ P.sender = .attempting b k (some .acked)) :=
+  ⟨readResponse_cut_is_error d s hcut, C01.ok_needs_broker_ack cfg st st' pw b k hdone⟩
 
 end KV.C17
